@@ -1,5 +1,5 @@
 """C38 — Tar extraction never touches anything outside the target (spec/TarFS)."""
-import json, re
+import json, re, threading
 
 META = dict(
     spec="TarFS",
@@ -34,6 +34,16 @@ def run(ctx):
                        "targets; thorough: larger) plus random archives <=10 entries; an entry refused on its name is offered "
                        "with the 3 most harmful bodies. non-trivial = at least 2 headers consumed and the file system changed "
                        "at least twice")
+    # build the harness while TLC works (go_build only logs; results are collected before the replay)
+    built = {}
+
+    def build():
+        try:
+            built["bin"] = ctx.go_build("tar", ["tar/zz_verif_C38_test.go"])
+        except Exception as e:      # re-raised in the main thread
+            built["err"] = e
+    builder = threading.Thread(target=build)
+    builder.start()
     ctx.tlc_mc(S, "MCTarFS.tla", "MCTarFS.cfg" if ctx.quick else "MCTarFSBig.cfg", timeout=6000, coverage=not ctx.quick, deadlock=False)
     ctl = ctx.tlc_mc(S, "MCTarFS.tla", "MCTarFSAsBuilt.cfg", timeout=900, deadlock=False, expect_violation=True)
     if ctl["violated"] != "Confined":
@@ -42,9 +52,12 @@ def run(ctx):
     sets = [("two", ctx.tlc_gen(S, "GenTarFS.tla", "GenTarFS.cfg", timeout=3000, workers=4)),
             ("three", ctx.tlc_gen(S, "GenTarFS.tla", "GenTarFS3.cfg" if ctx.quick else "GenTarFS3Big.cfg", timeout=6000,
                                   workers=4 if ctx.quick else 8))]
-    nsim = 30 if ctx.quick else 600
+    nsim = 30 if ctx.quick else 400
     sets.append(("sim", ctx.tlc_gen(S, "GenTarFS.tla", "GenTarFSSim.cfg", simulate=nsim, depth=12 * 10 + 1, timeout=3000)))
-    binp = ctx.go_build("tar", ["tar/zz_verif_C38_test.go"])
+    builder.join()
+    if "err" in built:
+        raise built["err"]
+    binp = built["bin"]
 
     def nontrivial(b):
         return len(b["ideal"]) >= 3 and sum(1 for s in b["ideal"] if s["diff"]) >= 2
@@ -52,6 +65,8 @@ def run(ctx):
         if not behs:
             ctx.broken("no behaviours in set " + name)
             return
+        if name != "sim":     # TLC workers print in any order: make the numbering reproducible
+            behs.sort(key=lambda b: (len(b["entries"]), b["v"], json.dumps(b["entries"], sort_keys=True)))
         if not replay(ctx, binp, name, behs, nontrivial):
             return
     ctx.cov["exhaustive"] = True
@@ -81,7 +96,8 @@ def replay(ctx, binp, name, behs, nontrivial):
         elif r.get("dev"):
             ctx.deviation(r["dev"], what, dict(behaviour=beh, disagreement=r))
         elif r.get("escape"):
-            ctx.violation(what, dict(behaviour=beh, disagreement=r))
+            if len(ctx.violations) < 20:          # one replay file per failing behaviour, but do not flood
+                ctx.violation(what, dict(behaviour=beh, disagreement=r))
         else:
             # the tree below the target or the error class differs from the model but nothing outside the target
             # changed: the property holds on this behaviour; what is lost is the model's conformance to the code
